@@ -29,7 +29,8 @@ MANIFEST = dict(
          'returns what mnemonic_is_valid accepts.'
          ' Key derivation gives, after any history of other derivations in the same process (other salts, other mnemonics), what it gives in a fresh process; ids are opaque symbols on every comparison path (nothing the channel keeps is computed from an id).'
          ' A bounded retry loop in mnemonic_new is walked for three draws and then as exhausted: what it returns after the last rejected draw must be valid too (raising is accepted).'
-         ' Packets of different sizes sent through one channel are each 64 + len(data) bytes and decrypt to their own plaintext.',
+         ' Packets of different sizes sent through one channel are each 64 + len(data) bytes and decrypt to their own plaintext.'
+         ' A channel re-opened over the same keys gets the same two keys again.',
     note='trusted: interpreter, rope model, the algebraic models of nacl / x25519 / Cryptodome / hashlib (these libraries are not analysed).',
     design_ref='DESIGN.md section 4 C20')
 
